@@ -4,7 +4,7 @@
     implementation's observations ([*_oracle_bad], through Model/Denote.v
     only — no function of Model/Storyline.v or of the compiler is used by the
     oracles). *)
-From Shk Require Import Base.Prelude Model.Storyline Model.Compile Model.Denote.
+From Shk Require Import Base.Prelude Model.Storyline Model.Compile Model.Denote Model.StepsText Model.StepsRead Model.Regex.
 Open Scope Z_scope.
 
 (** * Equality tests *)
@@ -24,16 +24,6 @@ Definition scene_eqb (a b : scene) : bool :=
 Definition play_eqb : play -> play -> bool := list_eqb (list_eqb scene_eqb).
 Definition story_eqb : list bytes -> list bytes -> bool := list_eqb bytes_eqb.
 Definition cols_eqb : list (list column) -> list (list column) -> bool := list_eqb (list_eqb bytes_eqb).
-
-Definition pevent_eqb (a b : pevent) : bool :=
-  match a, b with
-  | PAct k s, PAct k' s' => (k =? k') && obytes_eqb s s'
-  | PWait i n, PWait i' n' => (i =? i') && (n =? n')
-  | PMeanwhile i, PMeanwhile i' => i =? i'
-  | PDo i a x f, PDo i' a' x' f' => (i =? i') && bytes_eqb a a' && bytes_eqb x x' && Bool.eqb f f'
-  | PMood i m, PMood i' m' => (i =? i') && bytes_eqb m m'
-  | _, _ => false
-  end.
 
 Definition outcome_eqb {A} (eqb : A -> A -> bool) (a b : Outcome A) : bool :=
   match a, b with
@@ -70,16 +60,34 @@ Definition lit_replace (pat repl s : bytes) : bytes :=
 (** * Script cases *)
 
 (** What the harness observed of the whole text: the final storyline, the
-    compiled play and the events read back from the printed `-p` dump. *)
-Record final_obs := mkFinal { f_story : list bytes; f_play : play; f_printed : list pevent }.
+    compiled play (times in nanoseconds, as stored) and the text printSteps
+    printed for it, byte for byte. *)
+Record final_obs := mkFinal { f_story : list bytes; f_play : play; f_text : bytes }.
+
+(** The harness writes the printed text line by line (lines are shared
+    between cases through definitions): [join_lines ls] is the text. *)
+Definition join_lines (ls : list bytes) : bytes := flat_map (fun l => l ++ [x0a]) ls.
+
+(** How the oracle reads an edit clause.  [ELit]: the regular expression is a
+    quoted literal and the replacement has no `$`: the clause is
+    [CEdit (lit_replace pat repl)] and the oracle substitutes by itself.
+    [EText]: a real regular expression (classes, groups, `$1`); Go's regexp is
+    not modelled: the harness calls regexp.ReplaceAllString itself on the
+    storyline the hook reported before the clause and supplies the resulting
+    text; the clause is [CEdit (fun _ => text)].
+    [ERe]: a regular expression of the subset of Model/Regex.v, written twice
+    by the generator (Go pattern text in the clause, [re] term here); the
+    oracle substitutes with its OWN matcher (leftmost-first, Go's replaceAll
+    loop, [$]-free replacement) — nothing of Go's regexp is used to say what
+    the edit must produce; the clause is [CEdit (re_replace r repl)]. *)
+Inductive edit_desc := ELit (pat repl : bytes) | EText (text : bytes) | ERe (r : re) (repl : bytes).
 
 Record c06_case := mkCase {
   k_cast : cast;
   k_tempo : Z;
   k_cmds : list cmd;
-  (* the (pattern, replacement) of the edit clauses, in order: an edit clause
-     is [CEdit (lit_replace pat repl)] and the oracle needs to read the pair *)
-  k_edits : list (bytes * bytes);
+  (* one per edit clause, in order *)
+  k_edits : list edit_desc;
   (* stepwise through the real parseScript: cfg.storyLine after each clause,
      the same shape as [run_trace] (an [Err] carries 10*act+kind read from the
      message, [Err 999] any other error) *)
@@ -101,7 +109,7 @@ Definition case_model_bad (c : c06_case) : bool :=
   || match compile_script (k_cast c) (k_tempo c) (k_cmds c), k_final c with
      | Ok (st, p), Some f =>
          negb (story_eqb st (f_story f) && play_eqb p (f_play f)
-               && outcome_eqb (list_eqb pevent_eqb) (print_play st p) (Ok (f_printed f)))
+               && outcome_eqb bytes_eqb (print_text st p 0) (Ok (f_text f)))
      | Ok _, None => true
      | Err _, None => false
      | _, _ => true
@@ -133,7 +141,7 @@ Definition defines (cs : cast) (c : cmd) : list byte :=
 Definition mem_byte (l : list byte) (c : byte) : bool := existsb (Byte.eqb c) l.
 
 Fixpoint oracle_walk (cs : cast) (dfn : list byte) (text : list bytes) (cols : list (list column))
-         (cmds : list cmd) (edits : list (bytes * bytes)) (tr : list (Outcome (list bytes)))
+         (cmds : list cmd) (edits : list edit_desc) (tr : list (Outcome (list bytes)))
   : option (list (list column)) * bool :=     (* (final columns if all accepted, bad?) *)
   match cmds, tr with
   | [], [] => (Some cols, false)
@@ -152,8 +160,12 @@ Fixpoint oracle_walk (cs : cast) (dfn : list byte) (text : list bytes) (cols : l
           else match o, otl with Err _, [] => (None, false) | _, _ => (None, true) end
       | CEdit _ =>
           match edits with
-          | (pat, repl) :: etl =>
-              let new := acts_of (lit_replace pat repl (print_story text)) in
+          | ed :: etl =>
+              let new := acts_of (match ed with
+                                  | ELit pat repl => lit_replace pat repl (print_story text)
+                                  | EText t => t
+                                  | ERe r repl => re_replace r repl (print_story text)
+                                  end) in
               if wf_story (mem_byte dfn) new then
                 match o with
                 | Ok obs => if story_eqb obs new then oracle_walk cs dfn new (map columns new) ctl etl otl
@@ -178,59 +190,23 @@ Definition ev_eqb (a b : Z * list sline) : bool :=
 Definition sched_eqb (a b : list (Z * list sline) * Z) : bool :=
   list_eqb ev_eqb (fst a) (fst b) && (snd a =? snd b).
 
-(** Reading the printed dump back as a schedule: the time of a scene is the
-    last "wait until" printed so far in its act; "(meanwhile)" separates
-    lines; events carrying the same scene number form one scene. *)
-Definition add_step (st : step) (actor : option bytes) (newline : bool) (cur : list sline) : list sline :=
-  if newline then cur ++ [mkLine actor [st]]
-  else match rev cur with
-       | l :: r => rev r ++ [mkLine (ln_actor l) (ln_steps l ++ [st])]
-       | [] => [mkLine actor [st]]
-       end.
+(** The printed dump is read by Model/StepsRead.v ([decode_text], then
+    [read_events]): per act its number and header, per scene with lines the
+    time in force and the lines, and the time in force at the end.  What it
+    must show: act j is headed by the j-th act of the storyline and its
+    scenes are the denoted events. *)
+Definition strip_entries (v : list entry) : list (Z * list sline) :=
+  map (fun e => (snd (fst e), snd e)) v.
 
-(** state: finished acts (rev), header of the current act, finished events
-    of the current act (rev), current scene (index, lines), pending new line,
-    current time *)
-Record rd_state := mkRd { rd_acts : list (option bytes * (list (Z * list sline) * Z));
-                          rd_head : option (option bytes);
-                          rd_evs : list (Z * list sline);
-                          rd_idx : Z; rd_lines : list sline; rd_newline : bool; rd_time : Z }.
-
-Definition rd_flush_scene (s : rd_state) : rd_state :=
-  match rd_lines s with
-  | [] => s
-  | ls => mkRd (rd_acts s) (rd_head s) ((rd_time s, ls) :: rd_evs s) (rd_idx s) [] true (rd_time s)
+Fixpoint dump_matches (j : Z) (obs : list (Z * option bytes * (list entry * Z)))
+         (story : list bytes) (den : list (list (Z * list sline) * Z)) : bool :=
+  match obs, story, den with
+  | [], [], [] => true
+  | (k, h, (v, e)) :: obs', a :: story', d :: den' =>
+      (k =? j) && obytes_eqb h (Some a) && sched_eqb (strip_entries v, e) d
+      && dump_matches (j + 1) obs' story' den'
+  | _, _, _ => false
   end.
-
-Definition rd_flush_act (s : rd_state) : rd_state :=
-  let s := rd_flush_scene s in
-  match rd_head s with
-  | None => s
-  | Some h => mkRd ((h, (rev (rd_evs s), rd_time s)) :: rd_acts s) None [] 0 [] true 0
-  end.
-
-Definition rd_at (s : rd_state) (i : Z) : rd_state :=
-  if i =? rd_idx s then s
-  else let s := rd_flush_scene s in
-       mkRd (rd_acts s) (rd_head s) (rd_evs s) i [] true (rd_time s).
-
-Definition rd_step (s : rd_state) (e : pevent) : rd_state :=
-  match e with
-  | PAct _ st => let s := rd_flush_act s in mkRd (rd_acts s) (Some st) [] 0 [] true 0
-  | PWait i ns => let s := rd_at s i in
-                  mkRd (rd_acts s) (rd_head s) (rd_evs s) (rd_idx s) (rd_lines s) (rd_newline s) ns
-  | PMeanwhile i => let s := rd_at s i in
-                    mkRd (rd_acts s) (rd_head s) (rd_evs s) (rd_idx s) (rd_lines s) true (rd_time s)
-  | PDo i a x f => let s := rd_at s i in
-                   mkRd (rd_acts s) (rd_head s) (rd_evs s) (rd_idx s)
-                        (add_step (mkStep false x f) (Some a) (rd_newline s) (rd_lines s)) false (rd_time s)
-  | PMood i m => let s := rd_at s i in
-                 mkRd (rd_acts s) (rd_head s) (rd_evs s) (rd_idx s)
-                      (add_step (mkStep true m false) None (rd_newline s) (rd_lines s)) false (rd_time s)
-  end.
-
-Definition read_printed (evs : list pevent) : list (option bytes * (list (Z * list sline) * Z)) :=
-  rev (rd_acts (rd_flush_act (fold_left rd_step evs (mkRd [] None [] 0 [] true 0)))).
 
 Definition case_oracle_bad (c : c06_case) : bool :=
   if negb (in_domain c) then false else
@@ -246,10 +222,7 @@ Definition case_oracle_bad (c : c06_case) : bool :=
           let last_text := f_story f in
           negb (cols_eqb (map columns last_text) cols
                 && list_eqb sched_eqb (map timeline (f_play f)) (map act_events den)
-                && list_eqb (fun a b => obytes_eqb (fst a) (fst b) && sched_eqb (snd a) (snd b))
-                            (read_printed (f_printed f))
-                            (combine (map (@Some bytes) last_text) (map act_events den))
-                && Nat.eqb (List.length last_text) (List.length den))
+                && dump_matches 1 (read_events (decode_text (f_text f))) last_text (map act_events den))
       end
   end.
 
